@@ -764,7 +764,8 @@ def run(ctx):
                     tie_bad["driver"].append(words_of(c[0])[:300])
                     continue
                 text, flags, e1, e2, mtoks = m
-                if not flags[2] or not flags[3]:
+                if not flags[2] or not flags[3] or not flags[7]:
+                    # the generator left G: not well-ordered, undeclared prefix, or not WfSheet (hypothesis of delimited_of_wf)
                     tie_bad["generator"].append(text[:300])
                     continue
                 if not flags[0]:
